@@ -669,6 +669,7 @@ fn probe() {
     for (op, got, exp) in fs { println!("FINDING {}: {} (expected: {})", op, got, exp); }
 }
 
+fn deep() -> bool { std::env::var("VERIF_TIER").map(|t| t == "thorough").unwrap_or(false) } // thorough tier: wider bounds
 fn main() {
     if std::env::args().nth(1).as_deref() == Some("probe") { probe(); return; }
     std::panic::set_hook(Box::new(|_| {}));
@@ -740,7 +741,7 @@ fn main() {
         }
     }
     // n = 3, 4: every edge set, sampled contents
-    for (n, samples) in [(3usize, 160usize), (4, 3)] {
+    for (n, samples) in [(3usize, if deep() { 1600usize } else { 160usize }), (4, if deep() { 24 } else { 3 })] {
         for edges in 0u32..(1 << (n * n)) {
             let mut seed = 0xC10u64 ^ ((n as u64) << 40) ^ ((edges as u64) << 8);
             for _ in 0..samples {
